@@ -188,10 +188,16 @@ def stale_rejoin(src, parts, subs, res1, tag=""):
         return None
     absent = ms[src.choice(f"{tag}absent_member", len(ms))]
     subs2 = {m: t for m, t in subs.items() if m != absent}
-    res2 = run_assign("sticky", parts, subs2, previous={m: res1[m] for m in subs2}, generation=1)
+    # optionally a replacement member (no previous data) joins in the generation the absent one misses
+    repl = [None, "a0", "n0"][src.choice(f"{tag}replacement_joins", 3)]
+    if repl is not None:
+        subs2[repl] = list(subs[absent])
+    res2 = run_assign("sticky", parts, subs2, previous={m: res1[m] for m in subs2 if m in res1}, generation=1)
     prev3 = {m: res2[m] for m in subs2}
     prev3[absent] = res1[absent]
     gens = {m: 2 for m in subs2}
     gens[absent] = 1
-    res3 = run_assign("sticky", parts, subs, previous=prev3, generation=gens)
-    return absent, subs2, res2, res3
+    subs3 = dict(subs2)
+    subs3[absent] = list(subs[absent])
+    res3 = run_assign("sticky", parts, subs3, previous=prev3, generation=gens)
+    return absent, subs2, res2, res3, subs3
